@@ -18,8 +18,14 @@ def mix(ctx, n_generic, n_susp, n_over, n_oom, n_par, laws=("const",), bias=None
             yield gen_e.gen_oom(s + 300000 + i, drv, over=oom_over if i % 4 else False)
         for i in range(max(n_oom // 4, 1) if n_oom else 0):
             yield gen_e.gen_cancel(s + 350000 + i, drv)
+        for i in range(max(n_oom // 10, 2) if n_oom else 0):
+            yield gen_e.gen_oom_fast_clock(s + 370000 + i, drv)
         for i in range(max(n_susp // 4, 1) if n_susp else 0):
             yield gen_e.gen_sibling_suspend(s + 150000 + i, drv)
+        for i in range(max(n_susp // 8, 2) if n_susp else 0):
+            yield gen_e.gen_drain_during_writeout(s + 170000 + i, drv)
+        for i in range(max(n_susp // 8, 2) if n_susp else 0):
+            yield gen_e.gen_suspend_overcommitted(s + 180000 + i, drv)
         for i in range(n_par):
             yield gen_e.gen_parents(s + 400000 + i, drv)
     return make
